@@ -957,4 +957,121 @@ theorem singleSite_mkNode (id : Nat) (par : Option Nat) (ch : List Nat) (o : Nat
     simpa [goutL] using this
   simp [this]
 
+
+/-! ### tree level -/
+
+theorem findNode_of_mem (t : List TNode) (n : TNode) (hnd : (t.map (·.id)).Nodup) (hm : n ∈ t) :
+    findNode t n.id = some n := by
+  induction t with
+  | nil => simp at hm
+  | cons x xs ih =>
+    simp only [List.map_cons, List.nodup_cons] at hnd
+    unfold findNode
+    rw [List.find?_cons]
+    rcases List.mem_cons.mp hm with rfl | hm'
+    · simp
+    · have hne : x.id ≠ n.id := by
+        intro e
+        apply hnd.1
+        rw [e]
+        exact List.mem_map_of_mem hm'
+      have : (x.id == n.id) = false := by simp [hne]
+      rw [this]
+      exact ih hnd.2 hm'
+
+theorem eq_of_mem_of_id (t : List TNode) (n x : TNode) (hnd : (t.map (·.id)).Nodup)
+    (hn : n ∈ t) (hx : x ∈ t) (hid : x.id = n.id) : x = n := by
+  have h1 := findNode_of_mem t n hnd hn
+  have h2 := findNode_of_mem t x hnd hx
+  rw [hid, h1] at h2
+  exact (Option.some.inj h2).symm
+
+/-- What a two-site gate on the pair does to the tree: the pair's child moves to the front of its
+    parent's child list, nothing else changes (in particular every identifier and every parent). -/
+def afterPair (t : List TNode) (p c : Nat) (A B : List Nat) : List TNode :=
+  t.map fun x => if x.id = p then { x with children := c :: (A ++ B) } else x
+
+theorem updateNodes_eq (t : List TNode) (p c : Nat) (pp : Option Nat) (A B K : List Nat)
+    (l1 l2 : List Leg)
+    (hnd : (t.map (·.id)).Nodup)
+    (hP : (⟨p, pp, A ++ c :: B⟩ : TNode) ∈ t) (hC : (⟨c, some p, K⟩ : TNode) ∈ t) (hne : p ≠ c) :
+    updateNode (updateNode t p ⟨pp, c :: (A ++ B), l1⟩) c ⟨some p, K, l2⟩ = afterPair t p c A B ∧
+    updateNode (updateNode t c ⟨some p, K, l2⟩) p ⟨pp, c :: (A ++ B), l1⟩ = afterPair t p c A B := by
+  unfold updateNode afterPair
+  simp only [List.map_map]
+  constructor
+  · apply List.map_congr_left
+    intro x hx
+    simp only [Function.comp]
+    by_cases h1 : x.id = p
+    · have := eq_of_mem_of_id t ⟨p, pp, A ++ c :: B⟩ x hnd hP hx h1
+      subst this
+      simp [hne]
+    · by_cases h2 : x.id = c
+      · have := eq_of_mem_of_id t ⟨c, some p, K⟩ x hnd hC hx h2
+        subst this
+        simp [h1]
+      · simp [h1, h2]
+  · apply List.map_congr_left
+    intro x hx
+    simp only [Function.comp]
+    by_cases h1 : x.id = p
+    · have := eq_of_mem_of_id t ⟨p, pp, A ++ c :: B⟩ x hnd hP hx h1
+      subst this
+      simp [hne]
+    · by_cases h2 : x.id = c
+      · have := eq_of_mem_of_id t ⟨c, some p, K⟩ x hnd hC hx h2
+        subst this
+        simp [h1]
+      · simp [h1, h2]
+
+theorem applyPair_both (t : List TNode) (p c : Nat) (pp : Option Nat) (A B K : List Nat)
+    (hnd : (t.map (·.id)).Nodup)
+    (hP : (⟨p, pp, A ++ c :: B⟩ : TNode) ∈ t) (hC : (⟨c, some p, K⟩ : TNode) ∈ t)
+    (h : PairOK p c pp A B K) :
+    applyPair t p c = some (afterPair t p c A B) ∧ applyPair t c p = some (afterPair t p c A B) := by
+  have hne : p ≠ c := h.p_notin.2.2.2
+  have hne' : c ≠ p := fun e => hne e.symm
+  have fP := findNode_of_mem t ⟨p, pp, A ++ c :: B⟩ hnd hP
+  have fC := findNode_of_mem t ⟨c, some p, K⟩ hnd hC
+  simp only at fP fC
+  have hu := updateNodes_eq t p c pp A B K
+  constructor
+  · unfold applyPair
+    simp only [fP, fC, Option.bind_some, hne, if_false, twoSite_parentFirst 1 1 h, Option.map_some]
+    rw [(hu _ _ hnd hP hC hne).1]
+  · unfold applyPair
+    simp only [fP, fC, Option.bind_some, hne', if_false, twoSite_childFirst 1 1 h, Option.map_some]
+    rw [(hu _ _ hnd hP hC hne).2]
+
+
+theorem afterPair_structure (t : List TNode) (p c : Nat) (pp : Option Nat) (A B : List Nat)
+    (hnd : (t.map (·.id)).Nodup) (hP : (⟨p, pp, A ++ c :: B⟩ : TNode) ∈ t) :
+    (afterPair t p c A B).map (·.id) = t.map (·.id) ∧
+    (afterPair t p c A B).map (·.parent) = t.map (·.parent) ∧
+    (∀ y ∈ afterPair t p c A B, ∃ x ∈ t, x.id = y.id ∧ x.parent = y.parent ∧
+        y.children.Perm x.children) := by
+  unfold afterPair
+  refine ⟨?_, ?_, ?_⟩
+  · rw [List.map_map]
+    apply List.map_congr_left
+    intro x _
+    simp only [Function.comp]
+    split <;> rfl
+  · rw [List.map_map]
+    apply List.map_congr_left
+    intro x _
+    simp only [Function.comp]
+    split <;> rfl
+  · intro y hy
+    rw [List.mem_map] at hy
+    obtain ⟨x, hx, rfl⟩ := hy
+    refine ⟨x, hx, ?_⟩
+    by_cases h1 : x.id = p
+    · have := eq_of_mem_of_id t ⟨p, pp, A ++ c :: B⟩ x hnd hP hx h1
+      subst this
+      simp only [if_true, true_and]
+      exact List.perm_middle.symm
+    · simp [h1]
+
 end Ptn.C08
